@@ -8,7 +8,8 @@ A case is a concurrent program plus a schedule:
     pre <call>                                 optional: a call made before the threads start (partly indebted / drained stores)
     thread <t> <call> ; <call> ; ...           calls: consume j cost cur debt prio | regen j n cur | conv j n | xfer i j n cur |
                                                tick j  (one pass of store j's background regeneration loop, run by this thread)
-    sched <seed> | sched2 <i> <j>              schedule: seeded burst vector | thread 0 runs i lines, thread 1 j lines, ...
+    sched <seed> | sched2 <i> <j> ...          schedule: seeded burst vector | thread 0 runs i lines, thread 1 j lines, ... (segment k
+                                               belongs to thread k mod #threads; any number of segments)
 run_impl executes the REAL stores under the deterministic line-level scheduler (util.Sched) with scheduler-aware
 locks, records the order in which the store locks were acquired, and APPENDS to the case
     act <t> <action>                           one per critical region, in acquisition order
@@ -101,6 +102,9 @@ class C05(Prop):
         # (stores, setatp, threads)  -- the transfer witness first
         ([(5, 0, 0, 0), (5, 0, 0, 0)], [(1, 0)], [["xfer 0 1 5 atp"], ["consume 0 5 atp 0 0", "consume 1 5 atp 0 0"]]),
         ([(5, 0, 0, 0)], [], [["consume 0 5 atp 0 0"], ["consume 0 5 atp 0 0"]]),
+        # an unused credit line: income races a spend that goes into debt (whatever regenerate read before it took the lock is
+        # stale once the spend has booked its debt)
+        ([(100, 0, 0, 50)], [], [["regen 0 30 atp"], ["consume 0 120 atp 1 10"]]),
         ([(10, 0, 0, 0)], [], [["consume 0 6 atp 0 0"], ["consume 0 6 atp 0 0"], ["consume 0 6 atp 0 0"]]),
         ([(5, 0, 3, 4)], [], [["consume 0 7 atp 1 0"], ["consume 0 7 atp 1 0", "regen 0 3 atp"]]),
         ([(6, 0, 4, 0)], [(0, 2)], [["conv 0 3", "consume 0 4 atp 0 0"], ["conv 0 3", "consume 0 2 atp 0 0"]]),
@@ -135,7 +139,7 @@ class C05(Prop):
         """Families: plain (as before) | indebted (credit line, a prelude that leaves 0 < debt < max_debt, borrowing spends whose
         shortfall lies around the remaining credit) | regenerating (regeneration_rate > 0, ticks of the background loop, zero
         amounts) — each mixed with the generic calls, zero amounts included."""
-        fam = rng.choice(["plain", "plain", "indebted", "indebted", "regenerating", "regenerating", "mixed"])
+        fam = rng.choice(["plain", "plain", "indebted", "indebted", "regenerating", "regenerating", "mixed", "credit", "credit"])
         ns = rng.choice([1, 1, 2])
         stores, rates, pre = [], {}, []
         left = {}                                             # store -> (balance after the prelude, credit left), if known
@@ -143,9 +147,11 @@ class C05(Prop):
             b = rng.choice([0, 3, 5, 8, 10])
             g, n = rng.choice([0, 0, 2]), rng.choice([0, 0, 3])
             md = rng.choice([0, 0, 4])
-            if fam in ("indebted", "mixed") and (j == 0 or rng.random() < 0.5):
+            if fam in ("indebted", "mixed", "credit") and (j == 0 or rng.random() < 0.5):
                 md = rng.choice([2, 3, 4, 6, 10, 30])
                 d0 = rng.randint(1, md - 1) if md > 1 and rng.random() < 0.8 else rng.choice([0, md])
+                if fam == "credit":       # a credit line nobody has drawn on yet: the FIRST debt is booked while other calls run
+                    d0 = 0
                 stores.append((b, g, n, md))
                 if d0 > 0:                                    # a critical borrowing spend: leaves atp = nadh = 0, debt = d0
                     pre.append(f"consume {j} {b + n + d0} atp 1 10")
@@ -165,7 +171,10 @@ class C05(Prop):
             for _ in range(rng.randint(1, 3 if nt == 2 else 2)):
                 j = rng.randrange(ns)
                 r = rng.random()
-                if j in left and r < 0.6:
+                if fam == "credit" and j in left and 0.5 <= r < 0.85:
+                    md = stores[j][3]     # income that has to service whatever debt exists when it is booked
+                    calls.append(f"regen {j} {rng.choice([1, 3, 7, md, md + stores[j][0], 2 * md])} atp")
+                elif j in left and r < 0.6:
                     bal, cl = left[j]
                     md = stores[j][3]
                     cost = bal + max(0, rng.choice([cl - 1, cl, cl + 1, cl + 1, md, md, md + 1, 1, cl // 2 + 1]))
@@ -206,6 +215,17 @@ class C05(Prop):
                 made += 1
                 if made >= n:
                     return
+            # early preemption: one thread runs only its first i lines (it has entered its call but not yet taken the lock, or
+            # has just taken it), every other thread then runs to completion, then the first one goes on
+            nt = len(p[2])
+            for t in range(nt):
+                for i in (1, 2, 3, 4, 6):
+                    segs = [i if u == t else 0 for u in range(nt)] + [0 if u == t else 300 for u in range(nt)] \
+                        + [300 if u == t else 0 for u in range(nt)]
+                    yield {"lines": self._lines(*p, "sched2 " + " ".join(map(str, segs))), "note": "early preemption schedule"}
+                    made += 1
+                    if made >= n:
+                        return
 
     def exhaustive(self, tier):
         # every schedule with at most two context switches (thread 0 runs i lines, thread 1 runs j lines, then whoever
@@ -214,7 +234,7 @@ class C05(Prop):
         progs = [p for p in self.PROGRAMS if len(p[2]) == 2 and len(p) == 3]
         rng_n = 26 if tier == "quick" else 70
         if tier == "quick":
-            progs = progs[:2]
+            progs = progs[:3]
         else:       # thorough: also the two-thread programs with a prelude / a regeneration rate / ticks (no observers)
             progs += [p for p in self.PROGRAMS if len(p[2]) == 2 and len(p) == 5 and not p[3]]
         for p in progs:
